@@ -20,7 +20,7 @@ import tempfile
 import uuid
 from xml.sax.saxutils import escape
 
-TEXTS = ["qcow2", "raw", "QCOW2", "Raw", "vmdk", "base image.qcow2", "bäse-ïmage.img", "../dir/b.img", "ß", "a" * 200, "x", "日本語.qcow2"]
+TEXTS = ["qcow2", "raw", "QCOW2", "Raw", "vmdk", "base image.qcow2", "bäse-ïmage.img", "../dir/b.img", "ß", "a" * 200, "x", "日本語.qcow2", " leading and trailing space ", "tab\tinside", "trailing newline\n"]
 
 
 def diff(name, got, want, out):
@@ -213,6 +213,8 @@ def gen_vmdk_descriptor(rng):
         attr["parentFileNameHint"] = rng.choice(["parent.vmdk", "/vmfs/volumes/ds 1/vm/parent disk.vmdk", "C:\\vms\\p.vmdk", "pärent.vmdk"])
     if rng.random() < 0.3:
         attr["encoding"] = "UTF-8"
+    if rng.random() < 0.2:
+        attr["ddbLikeSetting"] = "1"  # starts with ddb but is not a ddb.* entry
     extents = []
     for _ in range(rng.randrange(0, 5)):
         acc = rng.choice(["RW", "RDONLY", "NOACCESS"])
@@ -338,7 +340,7 @@ def check_vdi(rng):
     hdr[0:40] = b"<<< Oracle VM VirtualBox Disk Image >>>\n"
     uids = [rng.randbytes(16) for _ in range(4)]
     struct.pack_into("<IIIII", hdr, 0x40, 0xBEDA107F, 0x00010001, 0x190, rng.choice([1, 2, 4]), 0)
-    struct.pack_into("<IIIIIIQIIII", hdr, 0x154, 512, 1024, 0, 0, 0, ss, size, bs, 0, n, 0)
+    struct.pack_into("<IIIIIIIQIIII", hdr, 0x154, 512, 1024, 0, 0, 0, ss, 0, size, bs, 0, n, 0)
     off = 0x188
     for u in uids:
         hdr[off:off + 16] = u
@@ -350,8 +352,9 @@ def check_vdi(rng):
     diff("sector_size", v.sector_size, ss, out)
     diff("data_offset", v.data_offset, 1024, out)
     diff("header.BlocksInHDD", v.header.BlocksInHDD, n, out)
-    diff("header.UuidCreate", bytes(v.header.UuidCreate), uids[0], out)
-    diff("header.UuidLinkage", bytes(v.header.UuidLinkage), uids[2], out)
+    diff("header.UUIDVDI", bytes(v.header.UUIDVDI), uids[0], out)
+    diff("header.UUIDLink", bytes(v.header.UUIDLink), uids[2], out)
+    diff("header.UUIDParent", bytes(v.header.UUIDParent), uids[3], out)
     return out, {}
 
 
@@ -366,13 +369,19 @@ def check_hds(rng):
     first = rng.choice([1, 8, 2048])
     hdr = bytearray(64)
     hdr[0:16] = b"WithouFreSpacExt" if v2 else b"WithoutFreeSpace"
-    struct.pack_into("<IIIIIIIQIII", hdr, 16, 2, 16, 63, spc, nbat, nsec if not v2 else 0, 0x746F6E59 if rng.random() < 0.3 else 0, nsec if v2 else 0, 0, first, 0)
+    in_use = 0x746F6E59 if rng.random() < 0.3 else rng.choice([0, 1])
+    struct.pack_into("<IIIII", hdr, 16, 2, 16, 63, spc, nbat)
+    if v2:
+        struct.pack_into("<Q", hdr, 36, nsec)
+    else:
+        struct.pack_into("<II", hdr, 36, nsec, rng.randrange(1 << 32))  # the second word is unused in version 1
+    struct.pack_into("<IIIQ", hdr, 44, in_use, first, 0, 0)
     img = bytes(hdr) + b"\0" * (4 * nbat) + b"\0" * 512
     v = HDS(io.BytesIO(img))
     diff("size", v.size, nsec * 512, out)
     diff("cluster_size", v.cluster_size, spc * 512, out)
     diff("data_offset", v.data_offset, first, out)
-    diff("in_use", v.in_use, struct.unpack_from("<I", hdr, 40)[0] == 0x746F6E59, out)
+    diff("in_use", v.in_use, in_use == 0x746F6E59, out)
     return out, {"v2": v2}
 
 
@@ -396,7 +405,7 @@ def check_hdd_descriptor(rng):
     pos = 0
     for si in range(rng.randrange(1, 4)):
         end = pos + rng.randrange(1, 1 << 30)
-        images = [(g, rng.choice(["Compressed", "Plain"]), rng.choice(["disk.hds", "my disk.hdd.0.{%s}.hds" % g, "dïsk.hds", "/abs/path/x.hds"])) for g in guids]
+        images = [(g, rng.choice(["Compressed", "Plain"]), rng.choice(["disk.hds", "my disk.hdd.0.{%s}.hds" % g, "dïsk.hds", "/abs/path/x.hds", " spaced name.hds "])) for g in guids]
         storages.append((pos, end, images))
         pos = end
     braces = rng.random() < 0.8
